@@ -40,7 +40,7 @@ def _case(draw, focus, tier="quick"):
         if i == 0 and focus == "distribute":
             kind = "trough"
         labs.append(draw(lab_spec(names[i], kind=kind, max_rows=4, max_cols=4, regime="roomy", grid=True, allow_names=False, pos=(10 + i, 1 + i), filled=True if i == 0 else None)))
-    if n >= 2 and draw(st.integers(0, 5)) == 0:
+    if n >= 2 and draw(st.integers(0, 2)) == 0:
         # a replica: a second, distinct labware object with the same name and geometry (histories are kept per object;
         # records are not interpreted in this check, so the shared rack label does no harm)
         import copy
